@@ -135,7 +135,7 @@ def history_jobs(tier, seed):
     items5 = [it for fam in c05.FAMILIES for it in fam(tier)]
     items6 = c06.items(tier)
     items7 = c07.items(tier)
-    quota = {"c05": (500, 600, 250), "c06": (350, 250, 100), "c07": (10**6, 0, 60)} \
+    quota = {"c05": (300, 300, 150), "c06": (200, 150, 60), "c07": (10**6, 0, 60)} \
         if tier == "quick" else {"c05": (10**6, 6000, 2000), "c06": (10**6, 3000, 800),
                                  "c07": (10**6, 0, 400)}
     for mod, items in (("c05", items5), ("c06", items6), ("c07", items7)):
@@ -281,6 +281,6 @@ def psy_files(tier, seed):
                     and not f.endswith("_mod.f90") and not f.endswith("_mod.F90"))
         if tier == "quick" and api == "dynamo0.3":
             rnd = random.Random(seed + 11)
-            fs = sorted(rnd.sample(fs, min(len(fs), 160)))
+            fs = sorted(rnd.sample(fs, min(len(fs), 80)))
         res += [(api, os.path.join(d, f)) for f in fs]
     return res
